@@ -10,6 +10,25 @@ use std::collections::HashMap;
 use std::rc::Rc;
 use target_scheme::TargetScheme;
 
+/// Escape a string so it can be written between double quotes in the generated Scheme code and
+/// read back as exactly the same string
+pub(crate) fn escape_string(raw: &str) -> String {
+    let mut escaped = String::with_capacity(raw.len());
+
+    for c in raw.chars() {
+        match c {
+            '\\' => escaped.push_str("\\\\"),
+            '"' => escaped.push_str("\\\""),
+            c if (c as u32) < 0x20 || c as u32 == 0x7f => {
+                escaped.push_str(&format!("\\x{:02x}", c as u32))
+            }
+            c => escaped.push(c),
+        }
+    }
+
+    escaped
+}
+
 /// Information collected about the compilation
 pub struct CompiledExpression {
     policy_body: String,
@@ -74,7 +93,7 @@ pub fn compile(
 
 impl CompiledExpression {
     pub fn scheme<S: AsRef<str>>(&self, mdt: S) -> String {
-        let mdt = mdt.as_ref();
+        let mdt = escape_string(mdt.as_ref());
         format!(
             "(use-modules (lipe) (lipe find){})
 
